@@ -4,7 +4,7 @@
 #   (2) without the patch: demo PASSES
 # then store it under /verif/seeded/<ID>_<X>/ (patch.diff, demonstration, meta.json is written by the caller)
 set -u
-ID="$1"; X="$2"; wt="/tmp/mut_$ID"; src="$wt/out/$X"
+ID="$1"; X="$2"; wt="${3:-/tmp/mut_$ID}"; src="$wt/out/$X"
 cd "$wt" || exit 2
 git checkout -q -- engine
 git apply "$src/patch.diff" || { echo "CONFIRM $ID/$X: patch does not apply"; exit 1; }
